@@ -19,7 +19,7 @@ Section ProofsB.
   Notation up_chunk := (up_chunk content enc ks).
   Notation up_chunk_same := (up_chunk_same content enc ks).
 
-  Ltac sel := cbn [set_ws write_buf write_payload choked queue obuf msgs out last_piece cur closed ws send_choked ebuf eb_end kpos].
+  Ltac sel := cbn [set_ws write_buf write_payload choked queue obuf msgs out last_piece cur closed ws send_choked ebuf eb_end kpos upc load_chunk].
 
   (* ---------- provenance of queue entries and PIECE messages ---------- *)
   Lemma fill_queue_sub : forall s p, In p (queue (fill s)) -> In p (queue s).
